@@ -79,3 +79,10 @@ Lemma struct18_tail_lost_refuted :
   Some [1; 2; 3; 4; 5; 6; 7; 8; 9; 10; 11; 12; 13; 14; 15; 16; 0xA5; 0xA5; 0xA5; 0xA5].
 Proof. vm_compute. reflexivity. Qed.
 
+
+(* before fix df3e32a: a struct passed in SSE registers kept only the low 4 bytes of each xmm register *)
+Lemma struct_sse_refuted :
+  let sp := {| s_idx := 1; s_fmt := FStruct; s_size := 16; s_type := TReg; s_u := 102%Z; s_regs := [101%Z; 102%Z]; s_name := [] |} in
+  let inp := {| regs := []; xmm := [0x3ff8000000000001; 0x4002000000000002]; stk := []; rets := []; strs := []; wrds := [] |} in
+  payload (run 0 inp false [sp]) = Some [1; 0; 0; 0; 0; 0; 0; 0; 2; 0; 0; 0; 0; 0; 0; 0].
+Proof. vm_compute. reflexivity. Qed.
